@@ -373,7 +373,14 @@ def _entries():
         model = CircularGaussianPRF(fwhm=3.6)
         init = QTable(dict(x=[10.1, 30.2, 12.9, 31.0],
                            y=[9.0, 12.1, 29.0, 29.9]))
-        i['extra'] = [model, init]
+        # a second table that already uses the canonical column names
+        init2 = QTable(dict(x_init=[10.1, 30.2, 12.9, 31.0],
+                            y_init=[9.0, 12.1, 29.0, 29.9],
+                            flux_init=[900., 1300., 800., 1000.]))
+        if hasattr(i['data'], 'unit'):
+            init2['flux_init'] = init2['flux_init'] * i['data'].unit
+        i['extra'] = [model, init, init2]
+        i['init2'] = init2
         return model, init
 
     def e_psf(i):
@@ -383,6 +390,8 @@ def _entries():
         ph = PSFPhotometry(model, (5, 5), grouper=grouper,
                            localbkg_estimator=lb, aperture_radius=4)
         ph(i['data'], mask=i['mask'], error=i['error'], init_params=init)
+        ph(i['data'], mask=i['mask'], error=i['error'],
+           init_params=i['init2'])
         ph.make_model_image(val(i['data']).shape, psf_shape=(9, 9))
         ph.make_residual_image(i['data'], psf_shape=(9, 9))
     E['PSFPhotometry'] = (('ndarray', 'view', 'quantity'), e_psf)
@@ -394,6 +403,8 @@ def _entries():
         ph = IterativePSFPhotometry(model, (5, 5), finder=finder,
                                     aperture_radius=4, maxiters=2)
         ph(i['data'], mask=i['mask'], error=i['error'], init_params=init)
+        ph(i['data'], mask=i['mask'], error=i['error'],
+           init_params=i['init2'])
     E['IterativePSFPhotometry'] = (('ndarray', 'view'), e_ipsf)
 
     def e_model(i):
